@@ -48,8 +48,14 @@ structure Probes where
   cFlush : ClientHandler.IoRes := .pending
   server : List ServerSink.Ans := []
   sends : List (Bool × Nat × Nat) := []     -- server start_send: ok, blocks, body size
+  openCalls : List Nat := []                -- substreams whose current `poll_next` call has not returned yet
 
-def addOrder (o : List Nat) (v : Nat) : List Nat := if o.contains v then o else o ++ [v]
+/-- One `poll_next` call of substream `v` is one entry of `order`: a probe of `v` opens a call unless one
+is open; an answer after which `poll_next` returns (`Pending`, an item, the end) closes it. A substream
+whose processing future woke itself is polled again in the same `SelectAll::poll_next`: a second entry. -/
+def noteProbe (p : Probes) (v : Nat) (terminal : Bool) : Probes :=
+  let p := if p.openCalls.contains v then p else { p with order := p.order ++ [v], openCalls := p.openCalls ++ [v] }
+  if terminal then { p with openCalls := p.openCalls.filter (· != v) } else p
 
 /-- returns the probes and the next free message tag -/
 def parseProbes (s : String) (msg0 : Nat) : Probes × Nat := Id.run do
@@ -69,12 +75,12 @@ def parseProbes (s : String) (msg0 : Nat) : Probes × Nat := Id.run do
       let a : Inbound.ReadAns :=
         if r == "msg" then .msg m else if r == "err" then .err else if r == "eof" then .eof else .pending
       if r == "msg" then m := m + 1
-      p := { p with order := addOrder p.order v, reads := p.reads ++ [(v, a)] }
+      p := { noteProbe p v (r != "msg") with reads := p.reads ++ [(v, a)] }
     | ["ip", v, r] =>
       let v := v.toNat?.getD 0
       let a : Inbound.ProcAns :=
         if r == "fwd" then .fwd else if r == "empty" then .empty else if r == "fatal" then .fatal else .pending
-      p := { p with order := addOrder p.order v, procs := p.procs ++ [(v, a)] }
+      p := { noteProbe p v (r != "empty") with procs := p.procs ++ [(v, a)] }
     | ["ct", r] => p := { p with timer := some (r == "fired") }
     | ["cr", r] => p := { p with cReady := ioRes r }
     | ["cs", r] => p := { p with cSend := r == "ok", cSendSeen := p.cSendSeen + 1 }
@@ -156,6 +162,9 @@ def stepLine (v : V) (line : String) : V × Option String :=
     let (h', outs) := step v.h (.poll (envOf p))
     let v' := { v with h := h', nextMsg := m', lastOuts := outs }
     let got := showRes outs
+    -- the model's substreams consume exactly the answers the real readers / processing futures gave in this poll
+    let rest := Inbound.selectRest v.h.streams (envOf p).inbound p.order
+    let unasked := p.order.eraseDups.filter fun sid => !((rest sid).reads.isEmpty && (rest sid).procs.isEmpty)
     -- the timer is consulted exactly when the model has it armed and the client half gets that far
     let reached := got != "incoming" && v.h.client.queue.isEmpty && !v.h.client.halted
     let consultBad : Option String :=
@@ -164,6 +173,8 @@ def stepLine (v : V) (line : String) : V × Option String :=
       else none
     if let some why := timerBad then (v', some why)
     else if let some why := consultBad then (v', some why)
+    else if !unasked.isEmpty then
+      (v', some s!"inbound substream(s) {unasked} gave answers in this poll that the model's `poll_next` does not ask for (the real reader / processing future was polled where the model's is not)")
     else if got != res then
       (v', some s!"handler returned `{res}`, the model `{got}`")
     else if serverSends outs != p.sends then
